@@ -468,6 +468,7 @@ func C05(tier string) {
 	run.Cov["per_system"] = per
 	run.Cov["explanation"] = "states = universes; transitions = Resolve calls + scheduling points; schedules are executed on the real resolvers and client under the controlled scheduler"
 	run.Assumptions = []string{"memory-level interleavings between scheduling points are excluded by the no-write invariant (DESIGN §3.4): a resolver that does not write client-owned memory cannot race on it", "universes beyond the deviation bound and more than 2-3 concurrent resolutions are not covered"}
+	runRacePass(run, "C05", tier)
 	run.Finish()
 }
 
@@ -510,6 +511,8 @@ func rootsString(r [][2]string) string {
 func c05Replay(w string) (bool, string) {
 	p := core.Split(w)
 	switch p[0] {
+	case "race":
+		return raceReplay(p[1], p[2])
 	case "seq":
 		u, err := univ.Decode(p[2])
 		if err != nil {
